@@ -24,7 +24,7 @@ func funcFree(s string) string {
 
 func (g *gen) genC07impl() {
 	c := g.c
-	g.genSet(1+g.r.Intn(3), 2+g.r.Intn(3), g.r.Intn(2), false)
+	g.genSet(g.n(1, 3), g.n(2, 3), g.r.Intn(2), false)
 	// Simulated disk: every file defines some of the templates again or new
 	// ones, without sim functions so that the function forms can load them.
 	c.Disk = map[string]string{}
@@ -49,7 +49,7 @@ func (g *gen) genC07impl() {
 	names := g.allNames()
 	sets := []int{0}
 	frozen := map[int]bool{}
-	nops := 6 + g.r.Intn(10)
+	nops := g.n(6, 10)
 	var ops []Op
 	for i := 0; i < nops; i++ {
 		set := sets[g.r.Intn(len(sets))]
@@ -81,7 +81,7 @@ func (g *gen) genC07impl() {
 		}
 	}
 	c.Tasks = [][]Op{ops}
-	c.Profile = fmt.Sprintf("C07 sets=%d", len(sets))
+	c.Profile += fmt.Sprintf("C07 sets=%d", len(sets))
 	if g.chance(0.4) {
 		g.fsFaults(g.opPtrs(), 0.35)
 		g.execFaults(g.opPtrs(), 0.2)
